@@ -20,8 +20,15 @@ package lang
 
 // Copy of an address: same steps in a backing array of its own, without spare capacity (an append to the
 // copy can therefore never write into memory shared with a sibling copy) (C09, C17).
+// ---- C11: two addresses are equal only if they have the same steps, one by one (an empty address equals
+// ---- nothing): the rendering of a whole address does not identify its steps.
+//@ contract (lang.Address).Equals (a, addr) (result)
+//@   ensures [C11,name:equal-addresses-have-the-same-number-of-steps] implies(result, len(a) == len(addr) && len(a) > 0)
+//@   ensures [C11,name:equal-addresses-agree-step-by-step] implies(result, forall(j, 0, len(a), a[j].String() == addr[j].String()))
+//@   ensures [C11,name:same-steps-are-equal] implies(len(a) == len(addr) && len(a) > 0 && forall(j, 0, len(a), a[j].String() == addr[j].String()), result)
+//@   loop 1 invariant [C11] len(a) == len(addr) && forall(j, 0, rangeindex + 1, a[j].String() == addr[j].String())
 //@ contract (lang.Address).Copy (a) (result)
-//@   ensures [C09,C17] len(result) == len(a) && cap(result) == len(result) && fresh(result)
+//@   ensures [C09,C17] len(result) == len(a) && cap(result) == len(result) && fresh(result) && result != nil
 //@   ensures [C09,C17] forall(j, 0, len(a), result[j] == a[j])
 
 // ---- every element is examined: the loops below have no break and no return inside, i.e. they are left only
